@@ -155,9 +155,8 @@ func judge(p pair, run runner, prog string, unstable bool) verdict {
 		l.ensure()
 
 		out, ok := run(l, text)
-		post, _ := l.snapshot()
 
-		if d := snapDiff(l.pristineOut, post); len(d) > 0 {
+		if d := l.observe(); len(d) > 0 {
 			reasons = append(reasons, "outside modified ("+l.vid+"): "+strings.Join(d, "; "))
 		}
 
